@@ -240,7 +240,7 @@ def check(shape, contact_bits, reverse, absent, window, sep, names, acc, sample=
             else:
                 for key, (sigma, bbs, pair) in expected.items():
                     param = got[key]
-                    if abs(param.sigma - sigma) > 1e-12 or param.epsilon != eps:
+                    if not abs(param.sigma - sigma) <= 1e-12 or param.epsilon != eps:
                         problems.append(('c18:wrong-sigma-epsilon', 'pair %r: sigma %r epsilon %r, expected %r %r' % (pair, param.sigma, param.epsilon, sigma, eps)))
                         break
         if not problems:
